@@ -10,7 +10,7 @@ from simkit.util import tb
 
 PROPERTY = "C16"
 LEVEL = "exploration"
-BUDGET = {"quick": (800, 150), "thorough": (30000, 1500)}
+BUDGET = {"quick": (1600, 150), "thorough": (60000, 1500)}
 RULE = ("seeded Images / DiffractionPatterns ensembles (0-2 scan axes + optional extra ensemble axis, non-negative random data), eager and "
         "lazy with drawn scan-axis chunkings (single block, one position per block, uneven; including chunks narrower than the "
         "map_overlap halo of the Gaussian source filter). Clauses: DiffractionPatterns.interpolate (scalar or 'uniform' sampling, gpts) "
